@@ -84,6 +84,8 @@ def _ole_variant(plain: bytes, fmt: str, variant: str, rng) -> bytes:
     if fmt == "doc":
         w = bytearray(streams["WordDocument"])
         w[0x0B] |= 0x01                      # fEncrypted (bit 8 of the flags word at 0x0A)
+        if variant == "fib-flag-word95-signature":
+            w[0:2] = b"\xdc\xa5"             # wIdent of Word 6.0/95 (the reader accepts both signatures; both keep the flag word at 0x0A)
         streams["WordDocument"] = bytes(w)
     elif fmt == "xls":
         wb = streams["Workbook"]
@@ -173,6 +175,12 @@ def build_pair(case):
         if variant == "one-of-several-folders":
             return "zip", ".7z", plain, sevenz.make_7z(entries + [{"name": "z.txt", "data": b"x"}], layout="per-file", mixed_coders=[sevenz.LZMA, sevenz.AES]), True
         raise ValueError(variant)
+    if mech == "wrong-container":
+        # a plain file of one container family under a name of another family (report.doc saved as report.docx): unreadable for that
+        # reader, but not encrypted -> the only demand is "not rejected as encrypted" (expect_encrypted None)
+        src_fmt, as_fmt = variant.split("-as-")
+        data, _ = docs.build(src_fmt, seed)
+        return docs.BUILDERS[as_fmt][2], docs.BUILDERS[as_fmt][3], None, data, None
     plain, _ = docs.build(fmt, seed)
     kind, ext = docs.BUILDERS[fmt][2], docs.BUILDERS[fmt][3]
     if mech == "ooxml-cfb":
@@ -297,6 +305,9 @@ def gen_cases(run):
             for variant in ("encrypted", "encrypted-other-prefix", "encrypted-utf16-manifest", "encrypted-utf16be-manifest", "plain-utf16-manifest", "plain-name-contains-trigger", "plain-comment-contains-trigger"):
                 yield mk(mech="odf-manifest", fmt=fmt, variant=variant, seed=base + r)
         yield mk(mech="ole-flag", fmt="doc", variant="fib-flag", seed=base + r)
+        yield mk(mech="ole-flag", fmt="doc", variant="fib-flag-word95-signature", seed=base + r)
+        for variant in ("doc-as-docx", "xls-as-xlsx", "ppt-as-pptx", "xls-as-docx", "doc-as-odt", "ppt-as-odp", "docx-as-doc", "xlsx-as-xls", "pptx-as-ppt", "odt-as-docx", "docx-as-odt", "pdf-as-docx", "rtf-as-doc"):
+            yield mk(mech="wrong-container", fmt=variant.split("-as-")[1], variant=variant, seed=base + r)
         for variant in ("after-bof", "later", "before-first-eof"):
             yield mk(mech="ole-flag", fmt="xls", variant=variant, seed=base + r)
         for variant in ("encrypted-summary", "encrypted-summary-information", "encryption-info"):
